@@ -39,6 +39,7 @@ def run(ctx):
     RL.check_initialisation(ctx, 'R14.3', T)
     ctx.rule('R14.7', 'the lexer sees the whole input at once: a body cannot be cut at a chunk boundary', floor=3)
     RL.check_whole_text(ctx, 'R14.7')
+    RL.check_regex_table_ownership(ctx, 'R14.3')
     strategy = check_lookup_strategy(ctx, T)
     check_words(ctx, T)
     for name, d in T.kw:
